@@ -180,6 +180,10 @@ case "$mode" in
   metrics) echo '{"name": 5, bad' > "$METRICS_PATH"; exit 0 ;;
   patch) echo 'this is: [not, a valid' > "$KUBERNETES_PATCH_PATH"; exit 0 ;;
   metricsop) echo '{"name":"verif_m","action":"bogus","value":1}' > "$METRICS_PATH"; exit 0 ;;
+  gen\ *)
+    if [ -s "$D/out.$H.$n.m" ]; then cat "$D/out.$H.$n.m" > "$METRICS_PATH"; fi
+    if [ -s "$D/out.$H.$n.p" ]; then cat "$D/out.$H.$n.p" > "$KUBERNETES_PATCH_PATH"; fi
+    exit "${mode#gen }" ;;
   patchop) printf 'operation: MergePatch\nkind: ConfigMap\nnamespace: default\nname: does-not-exist\nmergePatch:\n  data:\n    a: b\n' > "$KUBERNETES_PATCH_PATH"; exit 0 ;;
 esac
 exit 3
@@ -345,6 +349,7 @@ func newC04World(c *Case, r *Run, hooks []c04Hook, boInit, boStep time.Duration,
 			w.fc.CreateNs(w.ns + "-" + kb.Name)
 		}
 	}
+	w.fc.CreateNs(w.ns + "-out") // where generated patch files create their objects
 	op, err := shell_operator.VerifAssemble(ctx, w.fc.Client, filepath.Join(dir, "hooks"), filepath.Join(dir, "tmp"))
 	for i := 0; err != nil && strings.Contains(err.Error(), "text file busy") && i < 20; i++ {
 		time.Sleep(10 * time.Millisecond)
@@ -698,7 +703,7 @@ func (w *c04World) begin(qn int) string {
 }
 
 // end lets the blocked hook finish in the given mode and records what the handler returned.
-func (w *c04World) end(qn int, mode string) string {
+func (w *c04World) end(qn int, mode string, out *c04Out) string {
 	run := w.running[qn]
 	delete(w.running, qn)
 	if run == nil {
@@ -715,7 +720,18 @@ func (w *c04World) end(qn int, mode string) string {
 	case "norun":
 		ret = *run.ret
 		mode = "ok"
+		out = nil
 	default:
+		if run.kind != "exec" {
+			out = nil
+		}
+		if out != nil {
+			// generated output files: the hook copies them to $METRICS_PATH / $KUBERNETES_PATCH_PATH
+			base := filepath.Join(w.dir, fmt.Sprintf("out.%s.%d", run.hook.Name, run.start.n))
+			_ = os.WriteFile(base+".m", []byte(out.Metrics), 0o644)
+			_ = os.WriteFile(base+".p", []byte(out.Patch), 0o644)
+			mode = fmt.Sprintf("gen %d", out.Exit)
+		}
 		if run.kind == "exec" {
 			// the hook blocks reading its gate fifo
 			w.openGate(filepath.Join(w.dir, fmt.Sprintf("gate.%s.%d", run.hook.Name, run.start.n)), mode)
@@ -723,7 +739,7 @@ func (w *c04World) end(qn int, mode string) string {
 		select {
 		case ret = <-rch:
 		case <-time.After(40 * time.Second):
-			w.c.Op(fmt.Sprintf("end q=%d ok=%d", qn, c04B01(mode == "ok")), "hang")
+			w.c.Op(fmt.Sprintf("end q=%d %s", qn, c04OkArg(mode, out)), "hang")
 			return "hang"
 		}
 	}
@@ -764,17 +780,21 @@ func (w *c04World) end(qn int, mode string) string {
 	if len(after) > 0 {
 		afterS = strings.Join(after, "|")
 	}
-	ok := c04B01(mode == "ok")
+	ok := c04OkArg(mode, out)
 	fc := 0
 	if run.real != nil {
 		fc = run.real.GetFailureCount()
 	}
 	if run.kind == "exec" {
-		w.c.Oracle(fmt.Sprintf("end q=%d ok=%d task=%d ctxs=%s sleep=%d after=%s s0=0", qn, ok, id, w.hookCtxs(run.start.ctxs),
+		w.c.Oracle(fmt.Sprintf("end q=%d %s task=%d ctxs=%s sleep=%d after=%s s0=0", qn, ok, id, w.hookCtxs(run.start.ctxs),
 			bo.delay.Nanoseconds(), afterS))
 	}
-	w.c.Op(fmt.Sprintf("end q=%d ok=%d", qn, ok), fmt.Sprintf("status=%s fc=%d sleep=%d queue=%s", status, fc,
+	w.c.Op(fmt.Sprintf("end q=%d %s", qn, ok), fmt.Sprintf("status=%s fc=%d sleep=%d queue=%s", status, fc,
 		bo.delay.Nanoseconds(), w.snapIds(afterSnaps)))
+	if out != nil {
+		mode = "gen:" + out.Shape
+		w.c.Note("output:" + out.Shape)
+	}
 	if status == "fail" {
 		w.lastFail[qn] = &bo
 		w.c.Note("end:fail-" + mode)
@@ -782,13 +802,22 @@ func (w *c04World) end(qn int, mode string) string {
 		w.lastFail[qn] = nil
 		switch {
 		case run.kind == "norun":
-		case mode == "ok":
+		case mode == "ok" || (out != nil && !out.Bad):
 			w.c.Note("end:success")
 		default:
 			w.c.Note("end:allowed-failure-" + mode)
 		}
 	}
 	return status
+}
+
+// c04OkArg is how the outcome of a run is stated on the `end` lines: ok=<0|1> for the fixed modes,
+// exit code and the text of the output files for a generated output (the driver decides).
+func c04OkArg(mode string, out *c04Out) string {
+	if out != nil {
+		return out.args()
+	}
+	return fmt.Sprintf("ok=%d", c04B01(mode == "ok"))
 }
 
 // ---------------------------------------------------------------- scenarios
@@ -804,7 +833,9 @@ type c04Plan struct {
 	boInit     time.Duration
 	boStep     time.Duration
 	realBo     bool
-	outcome    func(taskID int, failuresSoFar int) string // "ok" | "exit" | "metrics" | "patch" | …
+	outcome    func(taskID int, failuresSoFar int) string // "ok" | "exit" | "metrics" | "patch" | … | "gen-ok" | "gen-bad" (generated output files)
+	genRng     *Rng                                       // for the generated outputs
+	genOut     func(taskID int, failuresSoFar int) *c04Out // fixed outputs (corpus); overrides outcome
 	arrivals   func(qn int, step int) []c04Ev             // events fired while a run is blocked
 	boArrivals func(qn int, step int) []c04Ev             // events fired right after a failed run, i.e. during its back-off
 	initial    map[int][]c04Ev                            // per queue: first layout (the rest arrives while the first run is blocked)
@@ -842,13 +873,26 @@ func c04Execute(c *Case, r *Run, p c04Plan) {
 		run := w.running[qn]
 		id := w.tasks.Id(run.head.id)
 		mode := "ok"
+		var out *c04Out
 		if run.kind == "exec" {
-			mode = p.outcome(id, fails[id])
-			if mode != "ok" {
+			if p.genOut != nil {
+				out = p.genOut(id, fails[id])
+			} else {
+				mode = p.outcome(id, fails[id])
+			}
+			if strings.HasPrefix(mode, "gen-") && p.genRng != nil {
+				out = c04GenOut(p.genRng, mode == "gen-bad", fmt.Sprintf("c%d", c.Idx%7), w.ns+"-out")
+			}
+			if out != nil {
+				mode = "gen"
+				if out.Bad {
+					fails[id]++
+				}
+			} else if mode != "ok" {
 				fails[id]++
 			}
 		}
-		return w.end(qn, mode)
+		return w.end(qn, mode, out)
 	}
 	drive := func(qn int, withArrivals bool) bool {
 		for step := 0; step < p.maxSteps; step++ {
@@ -962,7 +1006,7 @@ func c04GenHooks(rng *Rng, nh int, kube bool) []c04Hook {
 }
 
 func c04FailMode(rng *Rng) string {
-	return PickOne(rng, []string{"exit", "exit", "metrics", "patch", "metricsop", "patchop"})
+	return PickOne(rng, []string{"exit", "metrics", "patch", "metricsop", "patchop", "gen-bad", "gen-bad", "gen-bad", "gen-bad", "gen-bad", "gen-bad"})
 }
 
 func c04Random(c *Case, rng *Rng, r *Run) {
@@ -1015,8 +1059,12 @@ func c04Random(c *Case, rng *Rng, r *Run) {
 		if failed < maxFail && rng.Chance(40) {
 			return c04FailMode(rng)
 		}
+		if rng.Chance(50) {
+			return "gen-ok" // a successful run that leaves metrics / patch files behind
+		}
 		return "ok"
 	}
+	p.genRng = rng
 	arrivals := 0
 	p.arrivals = func(qn, step int) []c04Ev {
 		if arrivals >= 4 || !rng.Chance(25) || len(byQueue[qn]) == 0 {
@@ -1091,8 +1139,40 @@ func c04SyncWitness(c *Case, r *Run) {
 	c04Execute(c, r, p)
 }
 
+// Output-file layouts: a task that does not allow failure leaves unparsable output files behind
+// (exit code 0) several times, then good ones; a later task of another hook waits behind it.
+func c04OutWitness(c *Case, r *Run) {
+	hooks := []c04Hook{{Name: "hook01", Num: 1, Queue: 1, Bindings: []c04Binding{{Name: "b2", Crontab: "1 0 1 1 *"}}},
+		{Name: "hook02", Num: 2, Queue: 1, Bindings: []c04Binding{{Name: "b3", Crontab: "2 0 1 1 *"}}}}
+	p := c04Plan{hooks: hooks, boInit: 20 * time.Millisecond, boStep: 5 * time.Millisecond, maxSteps: 30,
+		initial: map[int][]c04Ev{1: {{1, 0, false}, {0, 0, false}, {1, 0, false}}}}
+	m := `{"name":"verif_w","set":1}`
+	cm := `{"operation":"CreateOrUpdate","object":{"apiVersion":"v1","kind":"ConfigMap","metadata":{"name":"w","namespace":"NS"}}}`
+	outs := []*c04Out{
+		{Metrics: m + "}\n", Shape: "metrics:stray-closer-last", Bad: true},
+		{Metrics: m + "\n]\n" + m + "\n", Shape: "metrics:stray-closer-middle", Bad: true},
+		{Metrics: m + "\n" + m[:12], Shape: "metrics:truncated", Bad: true},
+		{Metrics: `{"name":"verif_w","set":"1"}`, Shape: "metrics:wrong-type-set", Bad: true},
+		{Patch: cm + "}\n", PApply: true, Shape: "patch:stray-closer-last", Bad: true},
+		{Metrics: m + "\n" + m + "\n", Patch: cm, PApply: true, Shape: "valid-output"},
+	}
+	first := -1
+	p.genOut = func(id, failed int) *c04Out {
+		if first < 0 {
+			first = id // the gate run of hook02
+		}
+		if id == first || id == first+2 {
+			return &c04Out{Shape: "valid-output", Metrics: m, PApply: true}
+		}
+		o := *outs[min(failed, len(outs)-1)]
+		o.Patch = strings.ReplaceAll(o.Patch, "NS", fmt.Sprintf("c04-%d-%d-out", r.Seed, c.Idx))
+		return &o
+	}
+	c04Execute(c, r, p)
+}
+
 func runC04(r *Run) {
-	r.Rule = "part 1: the real CalculateDelay (8 initial delays x retry counts 0..40, repeated) and the queue's default ExponentialBackoffFn: every observed delay must be a member of the model's set {calcDelay k r | r < 1000}; oracle: initial <= delay <= 32s. part 2: the real operator (NewShellOperator + real metric storages + kube-client/fake + real hook manager, kube events manager, events handler and queues) with 1..3 generated bash hooks (onStartup, 1..3 schedule bindings, in 60% of the cases 1..3 kubernetes bindings on ConfigMaps, each with allowFailure/group, kubernetes ones with executeHookOnSynchronization; queue main or q1) whose every execution blocks at a gate until the harness lets it finish as scripted (ok / exit 1 / unparsable metrics file / unparsable patch file / metric operation that fails validation / patch operation that cannot be applied); startup runs onStartup and Synchronization tasks; then schedule events are fired through ScheduleManager.Ch() and kubernetes events by creating objects in the fake cluster while a run is blocked, so queue layouts of 1..6 tasks (+ up to 4 arriving during runs) with mixed allowFailure values are in the queue when the head is handled; back-off shortened through ExponentialBackoffFn (15..30 ms + 5 ms*failureCount, or the real CalculateDelay for the first failure). Observation per run (taken inside a wrapper of the queue's Handler field and from the hook): queue at handler entry, contexts in the hook's context file, queue at handler return, failure counter, back-off returned, time from the back-off call to the next handler entry. Non-trivial: >= 2 tasks in the layouts. distinct = distinct op-line sequences."
+	r.Rule = "part 1: the real CalculateDelay (8 initial delays x retry counts 0..40, repeated) and the queue's default ExponentialBackoffFn: every observed delay must be a member of the model's set {calcDelay k r | r < 1000}; oracle: initial <= delay <= 32s. part 2: the real operator (NewShellOperator + real metric storages + kube-client/fake + real hook manager, kube events manager, events handler and queues) with 1..3 generated bash hooks (onStartup, 1..3 schedule bindings, in 60% of the cases 1..3 kubernetes bindings on ConfigMaps, each with allowFailure/group, kubernetes ones with executeHookOnSynchronization; queue main or q1) whose every execution blocks at a gate until the harness lets it finish as scripted (ok / exit 1 / unparsable metrics file / unparsable patch file / metric operation that fails validation / patch operation that cannot be applied); startup runs onStartup and Synchronization tasks; then schedule events are fired through ScheduleManager.Ch() and kubernetes events by creating objects in the fake cluster while a run is blocked, so queue layouts of 1..6 tasks (+ up to 4 arriving during runs) with mixed allowFailure values are in the queue when the head is handled; back-off shortened through ExponentialBackoffFn (15..30 ms + 5 ms*failureCount, or the real CalculateDelay for the first failure). Observation per run (taken inside a wrapper of the queue's Handler field and from the hook): queue at handler entry, contexts in the hook's context file, queue at handler return, failure counter, back-off returned, time from the back-off call to the next handler entry. 60% of the failing and half of the successful executions leave GENERATED output files behind (exit code, text of the metrics file, text of the patch file: 1..3 valid metric operations / 1..2 valid patch specs in varied spelling, damaged by one of: truncated, stray closer }/] before the first / between two / after the last document, trailing garbage, wrong type of a field, top level not an object, separator between documents, bad token, operation failing validation, unknown field, patch that cannot be applied, non-zero exit with good files); for these runs the lines carry exit code and file texts and the Lean driver decides from the texts whether the run failed. part 3: generated and corpus texts through MetricOperationsFromBytes+ValidateOperations and ParseOperations alone, compared with the model's verdict. Non-trivial: >= 2 tasks in the layouts. distinct = distinct op-line sequences."
 	r.CaseTimeout = 300 * time.Second
 	r.One(0, func(c *Case, _ *Rng) { c04Delays(c, r) })
 	r.One(1, func(c *Case, _ *Rng) {
@@ -1109,6 +1189,13 @@ func runC04(r *Run) {
 		c.Desc = "corpus: onStartup + grouped/ungrouped Synchronization tasks with mixed allowFailure and executeHookOnSynchronization:false, every run fails once; then kubernetes events"
 		c.Nontrivial = true
 		c04SyncWitness(c, r)
+	})
+	r.One(5, func(c *Case, _ *Rng) { c04ParserCorpus(c) })
+	r.One(6, func(c *Case, rng *Rng) { c04Parsers(c, rng, r) })
+	r.One(7, func(c *Case, _ *Rng) {
+		c.Desc = "corpus: metrics files with a stray closing brace / bracket after good documents, a truncated one, a wrong type; patch file with a stray closer; each then a good output"
+		c.Nontrivial = true
+		c04OutWitness(c, r)
 	})
 	r.Cases(10, r.N(120, 1000), 0, func(c *Case, rng *Rng) { c04Random(c, rng, r) })
 	if r.Thorough() {
